@@ -453,6 +453,9 @@ class World:
         # frame
         for path in con.modifies:
             self.ext.havoc_path(ex, fr, path)
+        # ghost effects (definitional counters: "one conversion attempt per call of this function")
+        for g, delta in (getattr(con, "ghost_effect", None) or {}).items():
+            ex.ghost[g] = ex.ghost_get(g) + delta
         # result
         res = self.contract_result(ex, con, fr)
         if any("fresh(result)" in cl for cl in returns.values()):
@@ -1183,6 +1186,51 @@ class World:
 
     def dict_method(self, ex, d, name, node):
         w = self
+        if isinstance(d, VDict) and getattr(d, "is_set", False):
+            def _names(o):
+                """(name, presence) pairs of an enumerated set / literal collection of names"""
+                if isinstance(o, VDict):
+                    return [(k, p) for k, (p, _) in o.items.items()]
+                if isinstance(o, VTup) and all(isinstance(x, VStr) and x.const() is not None for x in o.items):
+                    return [(x.const(), z3.BoolVal(True)) for x in o.items]
+                raise Unsupported("enumerated set operation with %r" % (o,))
+
+            def _mk(pairs):
+                r = VDict()
+                r.is_set = True
+                for k, p in pairs:
+                    r.items[k] = (z3.simplify(p), VNone())
+                return r
+            if name == "add":
+                def add(ex_, a, k):
+                    ck = a[0].const() if isinstance(a[0], VStr) else None
+                    if ck is None:
+                        raise Unsupported("enumerated set.add of a symbolic name")
+                    w.ext.mutated(ex_, d, "add")
+                    d.items[ck] = (z3.BoolVal(True), VNone())
+                    return VNone()
+                return VFunc("set.add", add)
+            if name == "update":
+                def supd(ex_, a, k):
+                    w.ext.mutated(ex_, d, "update")
+                    for kk, p in _names(a[0]):
+                        old = d.items.get(kk)
+                        d.items[kk] = (z3.simplify(z3.Or(p, old[0])) if old is not None else p, VNone())
+                    return VNone()
+                return VFunc("set.update", supd)
+            if name == "difference":
+                def diff(ex_, a, k):
+                    other = dict(_names(a[0]))
+                    return _mk([(kk, z3.And(p, z3.Not(other[kk])) if kk in other else p) for kk, p in _names(d)])
+                return VFunc("set.difference", diff)
+            if name == "intersection":
+                def inter(ex_, a, k):
+                    other = dict(_names(a[0]))
+                    return _mk([(kk, z3.And(p, other[kk])) for kk, p in _names(d) if kk in other])
+                return VFunc("set.intersection", inter)
+            if name == "copy":
+                return VFunc("set.copy", lambda ex_, a, k: _mk(_names(d)))
+            raise Unsupported("enumerated set.%s" % name)
         if isinstance(d, VDict):
             if name == "get":
                 def get(ex_, a, k):
@@ -1440,6 +1488,15 @@ class World:
                     import struct
                     bits = z3.simplify(z3.fpToIEEEBV(c)).as_long()
                     return VInt(int(struct.unpack("<d", struct.pack("<Q", bits))[0]))
+                # int(float): truncation toward zero; OverflowError for an infinity, ValueError for a NaN
+                f = args[0].t
+                if ex.branch(z3.fpIsNaN(f)):
+                    ex.throw("ValueError", node, origin="int(nan)")
+                if ex.branch(z3.fpIsInf(f)):
+                    ex.throw("OverflowError", node, origin="int(inf)")
+                r = z3.fpToReal(f)
+                fl = z3.ToInt(r)                      # floor
+                return VInt(z3.If(r >= 0, fl, z3.If(z3.ToReal(fl) == r, fl, fl + 1)))
         if py is float and len(args) == 1:
             a0 = args[0]
             if isinstance(a0, VFloat):
@@ -1452,6 +1509,10 @@ class World:
             it0 = as_int_term(a0)
             if it0 is not None:
                 from .externals import int_to_fp
+                # float(int): correctly rounded; OverflowError beyond the binary64 range
+                big = z3.IntVal(2 ** 1024 - 2 ** 970)       # first integer that rounds to infinity
+                if ex.branch(z3.Or(it0 >= big, it0 <= -big)):
+                    ex.throw("OverflowError", node, origin="float(int)")
                 return VFloat(int_to_fp(it0))
         if py is dict:
             if not args and not kwargs:
@@ -1506,7 +1567,24 @@ class World:
         self.ext.use(ex, "str(x): total, pure (uninterpreted) for non-str values")
         return VStr(sym.str_of(ex.box(v)))
 
+    def _enumerated_mode(self, ex):
+        fr = ex.frames[-1] if ex.frames else None
+        return fr is not None and getattr(getattr(fr, "contract", None), "concrete_dicts", False)
+
     def to_seq(self, ex, sk, v, node):
+        if sk == "set" and self._enumerated_mode(ex) and (v is None or isinstance(v, VDict) or (
+                isinstance(v, VTup) and all(isinstance(x, VStr) and x.const() is not None for x in v.items))):
+            # shape-bounded mode: a set of concrete names with a (possibly symbolic) presence condition per name
+            r = VDict()
+            r.is_set = True
+            if isinstance(v, VDict):
+                for k, (p, _) in v.items.items():
+                    r.items[k] = (p, VNone())
+            elif isinstance(v, VTup):
+                for x in v.items:
+                    r.items[x.const()] = (z3.BoolVal(True), VNone())
+            ex.created.add(id(r))
+            return r
         if v is None:
             return self.ext.new_list(ex, sk)
         if isinstance(v, VMap):
@@ -1619,6 +1697,10 @@ class World:
                 fn = ex.eval(tree, sf)
                 args = list(item.items) if (isinstance(item, VTup) and isinstance(gen.target, ast.Tuple)) else [item]
                 return ex.truthy(ex.call(fn, args + [res], {}))
+            except PyExc as pe:
+                # an exception while evaluating the element SPEC is a defect of the contract, never an exception
+                # of the program under verification (whose own handlers would otherwise swallow it)
+                raise ContractError("element spec of comprehension #%s (%s) raised %s" % (ordinal, text, pe.exc.cls.name))
             finally:
                 ex.spec_mode = saved
         which = ex.choose([z3.BoolVal(True), z3.BoolVal(True)])
